@@ -8,12 +8,3 @@ struct TextSize { raw: u32 }
 impl From<u32> for TextSize { fn from(raw: u32) -> Self { TextSize { raw } } }
 #[verifier::external]
 impl TextRange { fn empty(at: TextSize) -> TextRange { TextRange { start: at.raw, end: at.raw } } }
-// std::cell::Cell: the real type, declared to Verus as an opaque external type; `set` gets an
-// empty specification (no ensures), `get` is only used inside Parser::nth (external_body, R7).
-#[verifier::external_type_specification]
-#[verifier::external_body]
-#[verifier::reject_recursive_types(T)]
-pub struct ExCell<T: ?Sized>(core::cell::Cell<T>);
-pub assume_specification<T>[core::cell::Cell::<T>::set](c: &core::cell::Cell<T>, v: T);
-use core::cell::Cell;
-pub assume_specification<T>[core::cell::Cell::<T>::new](v: T) -> core::cell::Cell<T>;
